@@ -5,9 +5,16 @@ Probes (clone owns points / _elements) -> Gen obligations; correspondence of the
 scenarios registered from ONE base model object; reference check on the real code alone:
  (a) non-interference: an operation never changes the observable state (scenario settings, the model
      object's constants / points table / run specs, memo emptiness) of a slot it is not addressed to, nor of
-     the base model;
+     the base model, nor a manager's base_constants / base_points dictionaries (wave 2);
  (b) every read (run / session step / REST run / direct base evaluation) whose memo is consistent returns
      exactly the numbers of a FRESHLY BUILT model carrying that scenario's declared settings.
+
+Wave 2: the third constant of the harness model is an element of an ARRAYED constant (`v[1]`, so that every history
+runs on a model with `_elements` tables, whose size and identity are observed after every operation); manager-level
+base dictionaries are part of the compared state (`mgr m` lines); third probe `mergeOwnsDict`; exhaustive
+histories over a 12-letter alphabet (incl. reset_scenario_cache, constants-only session settings, later
+registrations with and without own dictionaries) after a prefix whose managers carry base constants / base points:
+L = 2 quick; L = 4 complete + L = 5 over the 7 state-changing letters in thorough (worker processes).
 """
 import json, os
 from common import *
@@ -15,7 +22,8 @@ from common import *
 NM, NS = 2, 3
 MGR = ["m0", "m1"]
 SCN = ["s0", "s1", "s2"]
-CONSTS = ["c0", "c1", "c2"]
+CONSTS = ["c0", "c1", "v[1]"]      # the third one is element 1 of the arrayed constant `v` (wave 2)
+N_ELEMS = 2
 POINTS = ["p0", "p1"]
 EQS = ["s", "f", "h"]
 DEF_CONST = {0: 11, 1: 12, 2: 13}
@@ -38,7 +46,8 @@ def build(consts, pts, rs):
     m = Model(starttime=float(rs[0]), stoptime=float(rs[1]), dt=rs[2] / 2.0, name="c06")
     s = m.stock("s"); f = m.flow("f"); h = m.converter("h")
     g0 = m.converter("g0"); g1 = m.converter("g1")
-    cs = [m.constant(n) for n in CONSTS]
+    v = m.constant("v"); v.setup_vector(N_ELEMS, [0.0, 0.0])
+    cs = [m.constant(CONSTS[0]), m.constant(CONSTS[1]), m.constants[CONSTS[2]]]
     for k, n in enumerate(POINTS):
         m.points[n] = pts_val(pts[k])
     for k in range(3):
@@ -46,7 +55,7 @@ def build(consts, pts, rs):
     g0.equation = sd.lookup(sd.time(), "p0")
     g1.equation = sd.lookup(sd.time(), "p1")
     f.equation = cs[0] + g0 * cs[1]
-    h.equation = cs[2] * g1
+    h.equation = v.arr_sum() * g1
     s.equation = f
     s.initial_value = 0.0
     return m
@@ -156,13 +165,32 @@ class Real:
                 "mpts": {POINTS.index(k): pts_code(v) for k, v in mod.points.items()},
                 "mrs": (int(mod.starttime), int(mod.stoptime), int(mod.dt * 2)),
                 "live": sc.sd_simulation is not None,
+                "elems": len(mod.constants["v"]._elements.equations),
                 "memo": any(len(v) > 0 for v in mod.memo.values())}
+
+    def mgr_view(self, m):
+        mg = self.mgr(m)
+        if mg is None:
+            return None
+        return {"bc": {CONSTS.index(k): int(v) for k, v in mg.base_constants.items()},
+                "bp": {POINTS.index(k): pts_code(v) for k, v in mg.base_points.items()}}
+
+    def elements_tables(self):
+        """identity + content of every `_elements` table reachable from the base model and the clones"""
+        out = {"base": (id(self.base.constants["v"]._elements), tuple(self.base.constants["v"]._elements.equations))}
+        for i in range(NM * NS):
+            sc = self.scn(i)
+            if sc is not None:
+                e = sc.model.constants["v"]._elements
+                out[i] = (id(e), tuple(e.equations))
+        return out
 
     def base_view(self):
         mod = self.base
         return {"meqs": {k: int(mod.equations[CONSTS[k]](0.0)) for k in range(3)},
                 "mpts": {POINTS.index(k): pts_code(v) for k, v in mod.points.items()},
                 "mrs": (int(mod.starttime), int(mod.stoptime), int(mod.dt * 2)),
+                "elems": len(mod.constants["v"]._elements.equations),
                 "memo": any(len(v) > 0 for v in mod.memo.values())}
 
     # every method returns (model lines, addressed slots, reads) ; reads = [(slot|"base", kind, t, {eq:{t:v}})]
@@ -363,10 +391,15 @@ class Shadow:
         if s is None:
             return None
         return {"consts": dict(s["consts"]), "pts": dict(s["pts"]), "rs": tuple(s["rs"]), "meqs": dict(s["meqs"]),
-                "mpts": dict(s["mpts"]), "mrs": tuple(s["mrs"]), "live": s["live"], "memo": len(s["gens"]) > 0}
+                "mpts": dict(s["mpts"]), "mrs": tuple(s["mrs"]), "live": s["live"], "elems": N_ELEMS, "memo": len(s["gens"]) > 0}
+
+    def mgr_view(self, m):
+        if m not in self.mgrs:
+            return None
+        return {"bc": dict(self.mgrs[m][0]), "bp": dict(self.mgrs[m][1])}
 
     def base_view(self):
-        return {"meqs": dict(DEF_CONST), "mpts": dict(DEF_PTS), "mrs": DEF_RS, "memo": self.base_gens > 0}
+        return {"meqs": dict(DEF_CONST), "mpts": dict(DEF_PTS), "mrs": DEF_RS, "elems": N_ELEMS, "memo": self.base_gens > 0}
 
 
 def parse_model_view(line):
@@ -379,7 +412,16 @@ def parse_model_view(line):
         return tuple(int(a) for a in x.split("/"))
     meqs = dict(DEF_CONST); meqs.update(sd(kv["meqs"]))
     return {"consts": sd(kv["consts"]), "pts": sd(kv["pts"]), "rs": rs(kv["rs"]), "meqs": meqs, "mpts": sd(kv["mpts"]),
-            "mrs": rs(kv["mrs"]), "live": kv["live"] == "1", "memo": kv["memo"] != "-"}
+            "mrs": rs(kv["mrs"]), "live": kv["live"] == "1", "elems": int(kv["elems"]), "memo": kv["memo"] != "-"}
+
+
+def parse_model_mgr(line):
+    if line == "none":
+        return None
+    kv = dict(x.split("=", 1) for x in line.split(" "))
+    def sd(x):
+        return {} if x == "-" else {int(a.split(":")[0]): int(a.split(":")[1]) for a in x.split(",")}
+    return {"bc": sd(kv["bc"]), "bp": sd(kv["bp"])}
 
 
 def parse_model_base(line):
@@ -388,7 +430,7 @@ def parse_model_base(line):
     def sd(x):
         return {} if x == "-" else {int(a.split(":")[0]): int(a.split(":")[1]) for a in x.split(",")}
     meqs = dict(DEF_CONST); meqs.update(sd(e[0]))
-    return {"meqs": meqs, "mpts": sd(e[1]), "mrs": tuple(int(a) for a in e[2].split("/")), "memo": kv["memo"] != "-"}
+    return {"meqs": meqs, "mpts": sd(e[1]), "mrs": tuple(int(a) for a in e[2].split("/")), "elems": int(e[3]), "memo": kv["memo"] != "-"}
 
 
 # ---------------------------------------------------------------- one history
@@ -407,6 +449,7 @@ def _run_history(ops):
     try:
         views = {i: real.view(i) for i in range(NM * NS)}
         bview = real.base_view()
+        etabs = real.elements_tables()
         for idx, op in enumerate(ops):
             try:
                 lines, addressed, reads = real.apply(op)
@@ -429,6 +472,19 @@ def _run_history(ops):
             ob = {k: v for k, v in bview.items() if k != "memo"}
             if nb != ob or (op[0] != "evalbase" and new_b["memo"] != bview["memo"]):
                 viols.append((idx, "base-model-leak", f"operation {op!r} changed the base model: {bview} -> {new_b}"))
+            # manager-level base dictionaries: registered once, never changed by any scenario operation
+            mviews = {m: real.mgr_view(m) for m in range(NM)}
+            for m in range(NM):
+                if mviews[m] != sh.mgr_view(m):
+                    viols.append((idx, "base-dict-leak", f"after {op!r} the base dictionaries of manager {MGR[m]} are {mviews[m]}, registered {sh.mgr_view(m)}"))
+            # `_elements` tables: no operation of the alphabet writes one (identity and content of every table reachable
+            # before the operation are unchanged; a new clone's table has the base table's content)
+            new_et = real.elements_tables()
+            for who, (ident, content) in new_et.items():
+                old = etabs.get(who)
+                if (old is not None and not (op[0] == "add" and who in addressed) and old != (ident, content)) or content != etabs["base"][1]:
+                    viols.append((idx, "elements-table-written", f"operation {op!r} changed the arrayed-element table of {who}: {old} -> {(ident, content)}"))
+            etabs = new_et
             # (b) own settings against the reference semantics
             for i in addressed:
                 if new_views[i] != sh.view(i):
@@ -468,6 +524,8 @@ def _run_history(ops):
             for i in range(NM * NS):
                 req.append(f"view {i}"); rep.append(views[i])
             req.append("base"); rep.append(bview)
+            for m in range(NM):
+                req.append(f"mgr {m}"); rep.append(mviews[m])
     finally:
         real.close()
     return req, rep, viols, stats
@@ -540,20 +598,26 @@ def rand_history(rng):
     return ops
 
 
-def exhaustive_histories(L):
-    """all histories of length L over a 9-letter alphabet after a fixed registration prefix
-    (two managers from one base model, scenarios A=slot 0, B=slot 1 in m0, C=slot 3 in m1, none with own points)"""
-    prefix = [("regmgr", 0, {}, {}), ("regmgr", 1, {}, {}), ("add", 0, {}), ("add", 1, {}), ("add", 3, {"consts": {0: 5}})]
-    P = {"pts": {0: 7}}
-    alpha = [("run", [0], [0]), ("run", [0, 1], [0, 1]), ("session", [0], [0], {0: dict(P)}), ("session", [0, 1], [0, 1], {}),
-             ("step", {0: {"pts": {1: 8}}}), ("step", {1: {"consts": {1: 3}}}), ("rest", [0], [1], {1: {"pts": {0: 4}, "stop": 3}}),
-             ("evalbase",), ("add", 2, {"pts": {0: 6}, "start": 1})]
+EX_PREFIX = [("regmgr", 0, {1: 7}, {1: 9}), ("regmgr", 1, {0: 6}, {}), ("add", 0, {}), ("add", 1, {}), ("add", 3, {"consts": {0: 5}})]
+EX_ALPHA = [("run", [0], [0]), ("run", [0, 1], [0, 1]), ("session", [0], [0], {0: {"pts": {0: 7}}}), ("session", [0, 1], [0, 1], {}),
+            ("step", {0: {"pts": {1: 8}}}), ("step", {1: {"consts": {1: 3}}}), ("rest", [0], [1], {1: {"pts": {0: 4}, "stop": 3}}),
+            ("evalbase",), ("add", 2, {"pts": {0: 6}, "start": 1}),
+            # wave 2
+            ("reset", 0), ("session", [0], [0], {0: {"consts": {1: 9}}}), ("add", 4, {})]
+EX_CORE = [1, 2, 4, 6, 9, 10, 11]          # the state-changing letters used for the longest histories
+
+
+def exhaustive_histories(L, letters=None):
+    """all histories of length L over the alphabet (or the given letters of it) after a fixed registration prefix:
+    two managers from one base model, m0 WITH base constants and base points, m1 with base constants; scenarios
+    A = slot 0, B = slot 1 in m0 without own dictionaries, C = slot 3 in m1 with own constants"""
+    alpha = EX_ALPHA if letters is None else [EX_ALPHA[k] for k in letters]
     out = []
     def rec(h, d):
         if d == L:
-            out.append(prefix + h); return
-        for a in alpha:
-            rec(h + [a], d + 1)
+            out.append(EX_PREFIX + h); return
+        for x in alpha:
+            rec(h + [x], d + 1)
     rec([], 0)
     return out, len(alpha)
 
@@ -572,6 +636,20 @@ def probe():
         A, B = b.get_scenario("m0", "s0"), b.get_scenario("m0", "s1")
         SdSimulation(model=A.model, name="probe").change_points(name="p0", value=pts_val(9))
         facts["cloneOwnsPoints"] = (pts_code(B.model.points["p0"]) == DEF_PTS[0] and pts_code(base.points["p0"]) == DEF_PTS[0])
+    finally:
+        b.destroy()
+    # merge of the manager's base dictionaries into scenarios without own `constants` / `points`
+    b = bptk()
+    try:
+        b.register_scenario_manager({"m0": {"model": base, "base_constants": {"c0": 5.0}, "base_points": {"p0": pts_val(3)}}})
+        b.register_scenarios(scenarios={"s0": {}, "s1": {}}, scenario_manager="m0")
+        A, B = b.get_scenario("m0", "s0"), b.get_scenario("m0", "s1")
+        mg = b.scenario_manager_factory.scenario_managers["m0"]
+        A.configure_settings({"constants": {"c0": 9.0}, "points": {"p0": pts_val(8)}})
+        facts["mergeOwnsDict"] = (B.constants.get("c0") == 5.0 and mg.base_constants.get("c0") == 5.0 and
+                                  pts_code(B.points["p0"]) == 3 and pts_code(mg.base_points["p0"]) == 3 and
+                                  A.constants is not mg.base_constants and A.points is not mg.base_points and
+                                  A.constants is not B.constants and A.points is not B.points)
     finally:
         b.destroy()
     # arrayed elements
@@ -595,18 +673,36 @@ def probe():
 
 
 def gen_lean(f):
-    p = "true" if f["cloneOwnsPoints"] else "false"
-    e = "true" if f["cloneOwnsElements"] else "false"
-    if f["cloneOwnsPoints"]:
-        body = "theorem holds : C06_full cfg := C06_full_of_good cfg (by decide)\n#print axioms holds\n"
-    else:
+    tf = lambda x: "true" if x else "false"
+    if f["cloneOwnsPoints"] and f["mergeOwnsDict"]:
+        body = ("theorem holds : C06_full cfg := C06_full_of_good cfg (by decide) (by decide)\n#print axioms holds\n")
+    elif not f["cloneOwnsPoints"]:
         body = ("theorem violated : ¬ C06_full cfg := C06_witness_shared_points cfg (by decide)\n#print axioms violated\n")
+    else:
+        body = ("theorem violated : ¬ C06_full cfg := C06_witness_shared_base_dict cfg (by decide)\n#print axioms violated\n")
+    # what still holds for the probed configuration, whatever was found
+    if f["mergeOwnsDict"]:
+        body += ("theorem partial_nopoints (b : Base) (ops : List Op) (h : ∀ op ∈ ops, ptsFree op = true) :\n"
+                 "    (∀ i, view (exec cfg b ops) i = (soloExec b i (ops.filter (relevant i))).s) ∧ baseView b (exec cfg b ops) = baseAlone b ops :=\n"
+                 "  C06_partial_nopoints cfg (by decide) b ops h\n#print axioms partial_nopoints\n"
+                 "theorem partial_consts (b : Base) (ops : List Op) :\n"
+                 "    (∀ i, (view (exec cfg b ops) i).map Solo.erase = ((soloExec b i (ops.filter (relevant i))).s).map Solo.erase) ∧\n"
+                 "    (baseView b (exec cfg b ops)).erase = (baseAlone b ops).erase :=\n"
+                 "  C06_partial_consts cfg (by decide) b ops\n#print axioms partial_consts\n")
+    if f["cloneOwnsPoints"]:
+        body += ("theorem partial_nobase (b : Base) (ops : List Op) (h : ∀ op ∈ ops, baseFree op = true) :\n"
+                 "    (∀ i, view (exec cfg b ops) i = (soloExec b i (ops.filter (relevant i))).s) ∧ baseView b (exec cfg b ops) = baseAlone b ops :=\n"
+                 "  C06_partial_nobase cfg (by decide) b ops h\n#print axioms partial_nobase\n")
     return ("import Bptk.Props.C06\n/-! GENERATED by harness/props/c06.py from /repo on every run — do not edit. -/\n"
             "namespace Bptk.C06.Gen\n"
-            f"def cfg : Cfg := {{ cloneOwnsPoints := {p}, cloneOwnsElements := {e} }}\n" + body + "end Bptk.C06.Gen\n")
+            f"def cfg : Cfg := {{ cloneOwnsPoints := {tf(f['cloneOwnsPoints'])}, cloneOwnsElements := {tf(f['cloneOwnsElements'])}, "
+            f"mergeOwnsDict := {tf(f['mergeOwnsDict'])} }}\n" + body + "end Bptk.C06.Gen\n")
 
 
 WITNESS = [("regmgr", 0, {}, {}), ("add", 0, {}), ("add", 1, {}), ("session", [0], [0], {}), ("step", {0: {"pts": {0: 7}}}), ("run", [0], [1])]
+# Lean `witnessMergeOps` / `witnessLateOps`: base constants, siblings without own dictionaries, re-parameterise one, run / register another
+WITNESS_MERGE = [("regmgr", 0, {0: 5}, {1: 3}), ("add", 0, {}), ("add", 1, {}), ("session", [0], [0], {0: {"consts": {0: 9}, "pts": {1: 4}}}),
+                 ("run", [0], [1]), ("add", 2, {}), ("run", [0], [2])]
 
 
 def shrink(ops, key):
@@ -640,82 +736,135 @@ def run(chk):
         shutil.rmtree(scratch, ignore_errors=True)
 
 
-def _run(chk):
-    facts = probe()
-    chk.notes["cfg"] = facts
-    ok, why = chk.prove(gen_lean(facts))
-    chk.cov["trusted_base"] = [
-        "Lean 4.33 kernel; axioms propext, Classical.choice, Quot.sound (audited per run via #print axioms)",
-        "hand-written heap machine lean/Bptk/Core/C06.lean of register_scenario_manager / register_scenarios (get_cloned_model, SimulationScenario.__init__) / SdRunner._run_scenarios / run_scenario_step / configure_settings / REST /run settings / reset_scenario_cache; tied to the code by the two probes and by the correspondence run",
-        "the numeric simulation is uninterpreted (results = function of effective settings read through the heap + memo content); the harness checks the numbers against freshly built real models",
-        "composite operations (run of several scenarios, begin_session, run_step, POST /run) are linearised by the harness into per-scenario model operations in the order of the Python loops",
-    ]
-    chk.assumptions = ["every scenario is registered with its own dictionary objects (the caller does not pass one dict object for two scenarios)",
-                       "a scenario dictionary has a `points` key only when it lists at least one graphical function",
-                       "nobody edits the base model object itself after registration (the property quantifies over scenario operations)",
-                       "tree carries fixes/C07-scenario-points-keep-table (the model describes SimulationScenario.__init__ merging, not replacing, the points table)"]
-    rng = chk.rng.fork("c06")
-    hs = [WITNESS]
-    L = 2 if chk.quick else 3
-    ex, na = exhaustive_histories(L)
-    hs += ex
-    n_rand = 110 if chk.quick else 1500
-    hs += [rand_history(rng) for _ in range(n_rand)]
-    chk.cov["rule"] = (f"witness history + all histories of length {L} over a {na}-letter alphabet (run one / run all, session with / without points settings, "
-                       f"step with points / constants, REST run with points+stoptime, base evaluation, re-registration) after a fixed prefix (2 managers on one base model, 3 scenarios) "
-                       f"= {len(ex)} histories, + {n_rand} seeded random histories (<= 12 operations, 2 managers x 3 scenarios, settings of all three kinds through registration, "
-                       "base values, session settings, step settings, REST settings); after every operation the views of all 6 slots and of the base model are compared (model vs real) "
-                       "and checked on the real code (non-interference, own settings, reads vs freshly built model); non-trivial = at least one settings-carrying operation after the first read")
-    req, real = [f"cfg {1 if facts['cloneOwnsPoints'] else 0} {1 if facts['cloneOwnsElements'] else 0}"], ["ok"]
-    first = {}
-    kinds, stats_all = {}, {"reads": 0, "reads_checked": 0}
-    bounds = []
+def process_chunk(arg):
+    """Run a list of histories on the real code, feed the model-level lines to Drive/C06 and compare.
+    Self-contained (also the entry point of the worker processes of the thorough tier)."""
+    hs, facts = arg
+    quiet_bptk_logging()
+    req = [f"cfg {1 if facts['cloneOwnsPoints'] else 0} {1 if facts['cloneOwnsElements'] else 0} {1 if facts['mergeOwnsDict'] else 0}"]
+    real = ["ok"]
+    first, kinds, stats_all, bounds, cases = {}, {}, {"reads": 0, "reads_checked": 0}, [], []
     for ops in hs:
         r, p, viols, stats = run_history(ops)
         for k in stats: stats_all[k] += stats[k]
         bounds.append((len(req), ops))
-        req.append("new " + st(DEF_PTS) + f" {DEF_RS[0]} {DEF_RS[1]} {DEF_RS[2]} 0"); real.append("ok")
+        req.append("new " + st(DEF_PTS) + f" {DEF_RS[0]} {DEF_RS[1]} {DEF_RS[2]} {N_ELEMS}"); real.append("ok")
         req += r; real += p
         for o in ops:
             kinds[o[0]] = kinds.get(o[0], 0) + 1
-        chk.case(repr(ops), nontrivial=any(o[0] in ("session", "step", "rest", "add") for o in ops[3:]), sample=[repr(o) for o in ops] if len(ops) > 6 else None)
+        cases.append((repr(ops), any(o[0] in ("session", "step", "rest", "add") for o in ops[3:]),
+                      [repr(o) for o in ops] if len(ops) > 6 else None))
         for v in viols:
             first.setdefault(v[1], (ops, v))
-    chk.cov["op_distribution"] = kinds
-    chk.cov["reads"] = stats_all
-    chk.cov["exhaustive_histories"] = len(ex)
-    chk.cov["traces_validated_against_impl"] = len(hs)
     model = drive("C06", req)
-    # compare
     diff = None
     for i, (a, b) in enumerate(zip(model, real)):
         if isinstance(b, str):
             same = a == b
         elif req[i] == "base":
             same = parse_model_base(a) == b
+        elif req[i].startswith("mgr "):
+            same = parse_model_mgr(a) == b
         else:
             same = parse_model_view(a) == b
         if not same:
             diff = i; break
     if diff is None and len(model) != len(real):
         diff = min(len(model), len(real))
+    dinfo = None
+    if diff is not None:
+        dinfo = {"line": diff, "history": next((o for s0, o in reversed(bounds) if s0 <= diff), None),
+                 "request_context": req[max(0, diff - 10):diff + 1], "model": model[diff] if diff < len(model) else None,
+                 "impl": repr(real[diff]) if diff < len(real) else None}
+    return {"first": first, "kinds": kinds, "stats": stats_all, "cases": cases, "diff": dinfo, "n": len(hs)}
+
+
+def _worker(arg):
+    scratch = scratch_dir("c06w")
+    cwd = os.getcwd()
+    os.chdir(scratch)
+    try:
+        return process_chunk(arg)
+    finally:
+        os.chdir(cwd)
+        import shutil
+        shutil.rmtree(scratch, ignore_errors=True)
+
+
+def _run(chk):
+    facts = probe()
+    chk.notes["cfg"] = facts
+    ok, why = chk.prove(gen_lean(facts))
+    chk.cov["trusted_base"] = [
+        "Lean 4.33 kernel; axioms propext, Classical.choice, Quot.sound (audited per run via #print axioms)",
+        "hand-written heap machine lean/Bptk/Core/C06.lean of register_scenario_manager / register_scenarios (add_scenarios' merge of base_constants / base_points with explicit dictionary identity, get_cloned_model, SimulationScenario.__init__) / SdRunner._run_scenarios / run_scenario_step / configure_settings / REST /run settings / reset_scenario_cache; tied to the code by the three probes and by the correspondence run",
+        "the numeric simulation is uninterpreted (results = function of effective settings read through the heap + memo content); the harness checks the numbers against freshly built real models",
+        "composite operations (run of several scenarios, begin_session, run_step, POST /run) are linearised by the harness into per-scenario model operations in the order of the Python loops",
+    ]
+    chk.assumptions = ["every scenario is registered with its own dictionary objects (the caller does not pass one dict object for two scenarios)",
+                       "a scenario dictionary has a `points` / `constants` key only when it lists at least one entry",
+                       "nobody edits the base model object or a clone's elements directly (the property quantifies over scenario operations; `element[k] = v` on a clone writes the shared `_elements` table and is outside the alphabet)",
+                       "tree carries fixes/C07-scenario-points-keep-table (the model describes SimulationScenario.__init__ merging, not replacing, the points table)"]
+    rng = chk.rng.fork("c06")
+    hs = [WITNESS, WITNESS_MERGE]
+    if chk.quick:
+        ex, na = exhaustive_histories(2)
+        ex_desc = f"all histories of length 2 over the {na}-letter alphabet"
+    else:
+        ex4, na = exhaustive_histories(4)
+        ex5, nc = exhaustive_histories(5, EX_CORE)
+        ex = ex4 + ex5
+        ex_desc = (f"all histories of length 4 over the {na}-letter alphabet ({len(ex4)}; contains every shorter history as a prefix, compared after every operation) "
+                   f"+ all histories of length 5 over its {nc} state-changing letters ({len(ex5)})")
+    hs += ex
+    n_rand = 110 if chk.quick else 1500
+    hs += [rand_history(rng) for _ in range(n_rand)]
+    chk.cov["rule"] = (f"witness histories (points alias, shared base dictionary + later registration) + {ex_desc} (run one / run all, session with points / constants / no settings, "
+                       f"step with points / constants, REST run with points+stoptime, reset_scenario_cache, base evaluation, later registration with own points / without own dictionaries) "
+                       f"after a fixed prefix (2 managers on one base model with base constants / base points, 3 scenarios) "
+                       f"= {len(ex)} histories, + {n_rand} seeded random histories (<= 12 operations, 2 managers x 3 scenarios, settings of all three kinds through registration, "
+                       "base values, session settings, step settings, REST settings); the model carries an arrayed constant; after every operation the views of all 6 slots, of the base model "
+                       "and of both managers' base dictionaries are compared (model vs real) and checked on the real code (non-interference, own settings, base dictionaries and `_elements` tables "
+                       "unchanged, reads vs freshly built model); non-trivial = at least one settings-carrying operation after the first read")
+    if chk.quick or len(hs) < 400:
+        results = [process_chunk((hs, facts))]
+    else:
+        import multiprocessing as mp
+        nproc = max(2, min(8, (os.cpu_count() or 4) // 2))
+        size = 400
+        chunks = [(hs[i:i + size], facts) for i in range(0, len(hs), size)]
+        with mp.get_context("spawn").Pool(nproc) as pool:
+            results = pool.map(_worker, chunks, chunksize=1)
+        chk.notes["workers"] = nproc
+    first, kinds, stats_all, dinfo = {}, {}, {"reads": 0, "reads_checked": 0}, None
+    for res in results:
+        for k, v in res["first"].items(): first.setdefault(k, v)
+        for k, v in res["kinds"].items(): kinds[k] = kinds.get(k, 0) + v
+        for k in stats_all: stats_all[k] += res["stats"][k]
+        for (canon, nontrivial, sample) in res["cases"]:
+            chk.case(canon, nontrivial=nontrivial, sample=sample)
+        if dinfo is None and res["diff"] is not None:
+            dinfo = res["diff"]
+    chk.cov["op_distribution"] = kinds
+    chk.cov["reads"] = stats_all
+    chk.cov["exhaustive_histories"] = len(ex)
+    chk.cov["traces_validated_against_impl"] = len(hs)
     for key, (ops, v) in first.items():
         small = shrink(ops[:v[0] + 1], key)
         vv = [x for x in run_history(small)[2] if x[1] == key]
         chk.add_finding(key, f"after {small!r}: {vv[0][2] if vv else v[2]}", {"ops": small, "violation": (vv[0] if vv else v)})
     if not facts["cloneOwnsPoints"] and "cross-scenario-leak" not in first and "base-model-leak" not in first:
         chk.add_finding("cross-scenario-leak", "probe: change_points on one clone changes its sibling / the base model", {"ops": WITNESS})
+    if not facts["mergeOwnsDict"] and "cross-scenario-leak" not in first and "base-dict-leak" not in first:
+        chk.add_finding("cross-scenario-leak", "probe: configure_settings on one scenario without own dictionaries rewrites the manager's base dictionaries / its siblings", {"ops": WITNESS_MERGE})
     if not ok:
         chk.add_finding("obligation", f"proof obligations of C06 no longer check: {why}",
                         {"theorem": "Bptk.C06.Gen.holds / Bptk.Props.C06", "detail": why}, found_input=False)
-    if diff is not None and not first:
-        ops = next((o for s, o in reversed(bounds) if s <= diff), None)
-        chk.add_finding("correspondence", f"model and implementation disagree at protocol line {diff}: request {req[diff]!r}",
-                        {"correspondence": "Drive/C06 vs bptk scenario machinery", "line": diff, "history": ops,
-                         "request_context": req[max(0, diff - 10):diff + 1], "model": model[diff] if diff < len(model) else None,
-                         "impl": real[diff] if diff < len(real) else None}, found_input=False)
-    elif diff is not None:
-        chk.notes["correspondence_diff"] = {"line": diff, "request": req[diff], "model": model[diff] if diff < len(model) else None, "impl": str(real[diff])}
+    if dinfo is not None and not first:
+        chk.add_finding("correspondence", f"model and implementation disagree at protocol line {dinfo['line']}: request {dinfo['request_context'][-1]!r}",
+                        dict(dinfo, correspondence="Drive/C06 vs bptk scenario machinery"), found_input=False)
+    elif dinfo is not None:
+        chk.notes["correspondence_diff"] = {k: dinfo[k] for k in ("line", "model", "impl")}
 
 
 def replay(path):
